@@ -527,7 +527,7 @@ def kw_theta(g):
         return float(th)
     if isinstance(th, float):
         return float(th)
-    raise ValueError("theta outside the modelled domain: %r" % (th,))
+    return None   # np.float32, symbolic ...: such a gate is never flagged (POther), the engine is not reached
 
 
 def gate_coq(g):
@@ -993,7 +993,7 @@ def sec_flags(run):
     b = CliffordBackend(engine="numpy")
     items, metas = [], []
     for lab, mk, nq in catalogue_gates():
-        for nc in (0, 1, 2):
+        for nc in ((0, 1, 2, 3) if nq == 1 else (0, 1, 2)):
             qs = list(range(nc, nc + nq))
             ctrl = list(range(nc))
             try:
@@ -1007,8 +1007,11 @@ def sec_flags(run):
                     g = g.controlled_by(*ctrl)
                 real = gate_coq(g)
                 real_flag = bool(g.clifford)
-                term = (f"match controlled_by {base_coq} {cnats(ctrl)} with Some g' => gate_eqb g' {real} "
-                        f"&& Bool.eqb (clifford g') {cbool(real_flag)} | None => false end")
+                if nc:
+                    term = (f"match controlled_by {base_coq} {cnats(ctrl)} with Some g' => gate_eqb g' {real} "
+                            f"&& Bool.eqb (clifford g') {cbool(real_flag)} | None => false end")
+                else:
+                    term = f"Bool.eqb (clifford {real}) {cbool(real_flag)}"
             except RuntimeError:
                 g, real_flag = None, None
                 term = f"match controlled_by {base_coq} {cnats(ctrl)} with Some _ => false | None => true end"
@@ -1495,6 +1498,7 @@ def sec_stim(run, rng):
                 descs.append({"g": g, "q": rng.sample(range(n), 2)})
             else:
                 descs.append({"g": g, "q": [rng.randrange(n)]})
+        descs.append({"g": rng.choice(["H", "S", "X", "I"]), "q": [n - 1]})   # stim sizes its tableau by the highest qubit used
         T1, _ = real_tableau(b, make_circuit(n, descs))
         T2 = np.asarray(bs.execute_circuit(make_circuit(n, descs)).symplectic_matrix).astype(np.uint8)
         run.case(["stim", n, descs])
@@ -1502,6 +1506,17 @@ def sec_stim(run, rng):
             bad += 1
             report(run, "stim:tableau", "stim engine and numpy engine give different tableaux", {"kind": "stim", "n": n, "descs": descs})
     run.oblige(f"test:stim engine tableau == numpy engine tableau ({cnt} circuits over {STIM_OK})", bad == 0, "test")
+    # idle highest qubit: stim.Tableau.from_circuit sizes the tableau by the highest qubit that is used
+    c = Circuit(2)
+    c.add(gates.H(0))
+    try:
+        r_ = bs.execute_circuit(c)
+        run.case(["stim_idle", int(r_.nqubits)])
+        if int(r_.nqubits) != 2:
+            report(run, "stim:idle_top_qubit:Circuit(2).H(0)", f"stim engine: Circuit(2) with only H(0) yields a Clifford object on {r_.nqubits} qubit(s): "
+                   "the tableau is sized by the highest qubit used, idle top qubits are dropped", {"kind": "stim_idle"})
+    except Exception as e:
+        run.notes["stim_idle"] = f"refused: {type(e).__name__}"
     # names the stim path cannot express are refused by an exception of stim; controlled gates are not
     refused = []
     for mk in (lambda: gates.SDG(0), lambda: gates.SX(0), lambda: gates.RX(0, np.pi / 2), lambda: gates.ECR(0, 1), lambda: gates.T(0),
@@ -1606,3 +1621,118 @@ def main(run):
     sec_to_circuit(run, rng)
     run.notes.pop("reported_keys", None)
     return run.finish(level="proof", rule=RULE_TEXT)
+
+
+# ---------------------------------------------------------------- static theorems and matrix tie
+def sec_static(run):
+    names = vcore.props_theorems("C12/Props.v")
+    ok, res = vcore.static_assumptions("C12/Props")
+    run.checker_cmds.append("make theories/C12/Props.vo ; coqc _build/assumptions/C12_Props_pa.v")
+    closed = 0
+    for nm in names:
+        run.oblige(f"theorem:{nm}", ok and nm in res, "theorem")
+        txt = res.get(nm, "")
+        if txt.startswith("Closed"):
+            closed += 1
+        for m in re.finditer(r"([A-Za-z_][\w.]*) :", txt):
+            run.axioms.add(m.group(1))
+    run.notes["static_theorems"] = {"count": len(names), "closed_under_global_context": closed,
+                                    "others": "only kernel primitives of PrimFloat/PrimInt63 (float model), no Axiom/Admitted"}
+    if not ok:
+        run.find("static:assumptions", "Print Assumptions file for C12/Props does not compile", {}, concrete=False)
+    run.not_proved += [
+        "every *sampled* outcome has non-zero Born probability: not proved (needs the stabiliser-formalism link tableau -> amplitudes); "
+        "covered by rowsum_ok / determined_spec_stabilises_partial for the reference procedure and by tests against the state vector",
+        "tableau_inv under measurement (M): only the update rules are proved (tableau_inv_rules)",
+        "uniqueness of the state stabilised by n independent commuting generators (standard; not formalised)",
+        "tableau -> circuit (AG04 / BM20): test only",
+        "flag_sound / flag_complete_K / controlled_flag_ok / cr_flag_ok / rowsum_ok and determined_outcome_ok of the engine as written: REFUTED (see refuted_on_current_tree)"]
+
+
+def sec_matrices(run):
+    """the scaled Gaussian-integer matrices of Pauli.v against gate.matrix() of the real gates (test, 1e-12)"""
+    from qibo import gates
+    s2 = math.sqrt(2.0)
+    rows = [("M_I", gates.I(0), 1), ("M_H", gates.H(0), s2), ("M_X", gates.X(0), 1), ("M_Y", gates.Y(0), 1), ("M_Z", gates.Z(0), 1),
+            ("M_S", gates.S(0), 1), ("M_SDG", gates.SDG(0), 1), ("M_SX", gates.SX(0), 2), ("M_SXDG", gates.SXDG(0), 2),
+            ("M_CNOT", gates.CNOT(0, 1), 1), ("M_CY", gates.CY(0, 1), 1), ("M_CZ", gates.CZ(0, 1), 1), ("M_SWAP", gates.SWAP(0, 1), 1),
+            ("M_iSWAP", gates.iSWAP(0, 1), 1), ("M_FSWAP", gates.FSWAP(0, 1), 1), ("M_ECR", gates.ECR(0, 1), s2)]
+    for j in range(4):
+        sc = s2 if j % 2 else 1
+        rows += [(f"(M_RX {j})", gates.RX(0, j * np.pi / 2), sc), (f"(M_RY {j})", gates.RY(0, j * np.pi / 2), sc),
+                 (f"(M_RZ {j})", gates.RZ(0, j * np.pi / 2), sc),
+                 (f"(M_CRX {j})", gates.CRX(0, 1, j * np.pi), 1), (f"(M_CRY {j})", gates.CRY(0, 1, j * np.pi), 1),
+                 (f"(M_CRZ {j})", gates.CRZ(0, 1, j * np.pi), 1)]
+    hdr = COQ_HEADER + "From QV Require Import Base.Mat Base.Zi C12.Pauli.\n"
+    vals = run.coq_eval("Matrices.v", hdr, [t for t, _, _ in rows])
+    if vals is None:
+        run.oblige("test:gate matrices of Pauli.v", False, "test")
+        run.find("matrices:compile", "matrix file does not compile", {}, concrete=False)
+        return
+    bad = []
+    for (t, g, sc), v in zip(rows, vals):
+        v2 = re.sub(r"[()%Z]", "", v)
+        nums = [complex(int(a), int(b)) for a, b in re.findall(r"(-?\d+), (-?\d+)", v2)]
+        M = np.asarray(g.matrix()) * sc
+        run.case(["matrix", t])
+        if len(nums) != M.size or np.abs(np.array(nums).reshape(M.shape) - M).max() > 1e-12:
+            bad.append(t)
+    run.oblige(f"test:the {len(rows)} gate matrices of Pauli.v == scale * gate.matrix() (tol 1e-12)", not bad, "test")
+    if bad:
+        run.find("matrices:" + bad[0], f"gate matrices of the Coq development differ from gate.matrix(): {bad}", {"kind": "matrices"}, concrete=False)
+
+
+# ---------------------------------------------------------------- replay
+def replay(run, data):
+    from qibo import Circuit, gates
+    from qibo.backends import CliffordBackend
+    b = CliffordBackend(engine="numpy")
+    key, rp = data["key"], data.get("replay", {})
+    kind = rp.get("kind")
+    what = data.get("what", "")
+    if kind == "measure":
+        n, descs, qs = rp["n"], rp["descs"], rp["qubits"]
+        T, _ = real_tableau(b, make_circuit(n, descs))
+        psi = statevector(make_circuit(n, descs))
+        sample, _ = engine_M(b.engine, T, qs, n, forced=list(rp["forced"]))
+        run.case(["replay", key])
+        if born_probability(psi, n, qs, sample) < TOL:
+            run.find(key, what, rp)
+    elif kind == "samples":
+        n, descs, qs = rp["n"], rp["descs"], rp["qubits"]
+        psi = statevector(make_circuit(n, descs))
+        c = make_circuit(n, descs)
+        c.add(gates.M(*qs))
+        smp = np.asarray(b.execute_circuit(c, nshots=64).samples())
+        run.case(["replay", key])
+        if any(born_probability(psi, n, qs, row) < TOL for row in smp):
+            run.find(key, what, rp)
+    elif kind == "circuit":
+        n, descs = rp["n"], rp["descs"]
+        T, _ = real_tableau(b, make_circuit(n, descs))
+        run.case(["replay", key])
+        if stabiliser_defect(T, n, statevector(make_circuit(n, descs))) > TOL:
+            run.find(key, what, rp)
+    elif kind in ("flag_sound", "cr_flag"):
+        sec_flag_witnesses(run)
+    elif kind == "flag_complete":
+        k = rp["k"]
+        run.case(["replay", key])
+        if not gates.RX(0, k * np.pi / 2).clifford:
+            run.find(key, what, rp)
+    elif kind in ("controlled_flag", "flag_semantics", "flags"):
+        sec_flags(run)
+    elif kind == "collapse":
+        sec_collapse(run)
+    elif kind in ("stim", "stim_controlled", "stim_idle"):
+        sec_stim(run, random.Random(data.get("seed", 0)))
+    elif kind == "reject":
+        sec_reject(run, random.Random(data.get("seed", 0)))
+    elif kind == "to_circuit":
+        sec_to_circuit(run, random.Random(data.get("seed", 0)))
+    else:
+        return main(run)
+    run.findings = [f for f in run.findings if f.key == key] or run.findings
+    run.oblige("replay executed", True, "replay")
+    run.notes.pop("reported_keys", None)
+    return run.finish(level="proof", rule="replay of one recorded case")
